@@ -52,12 +52,14 @@ def write_species_itp(sp, path, rng=None, decorate=False, start=1):
     gen.write_itp(path, sp['name'], atoms, secs, rng=rng, decorate=decorate)
 
 
-def species_records(sp, pos, resid0, atomid0, vel=None):
+def species_records(sp, pos, resid0, atomid0, vel=None, numbers=None):
+    """numbers: residue number of each residue of the instance (default: consecutive from resid0)."""
     recs = []
     for i, (nm, rn, rid) in enumerate(sp['atoms']):
         xyz = tuple(r3(x) for x in pos[i])
         v = None if vel is None else tuple(float('%.4f' % x) for x in vel[i])
-        recs.append(((resid0 + rid - 1) % 100000, rn, nm, (atomid0 + i) % 100000, xyz, v))
+        num = (resid0 + rid - 1) if numbers is None else numbers[rid - 1]
+        recs.append((num % 100000, rn, nm, (atomid0 + i) % 100000, xyz, v))
     return recs
 
 
@@ -87,7 +89,7 @@ def place_instance(rng, sp, box, mode='rigid+jitter', index=0):
 
 
 def build_system(rng, species, sequence, box=(8.0, 8.0, 8.0), mode='rigid+jitter', with_vel=False,
-                 resid_start=1, atomid_start=1):
+                 resid_start=1, atomid_start=1, resid_mode='consecutive'):
     """sequence: list of species keys (keys of the dict `species`).  Returns
     (records, instances); instances: list of dict(species, first_atom, n_atoms,
     resids, coords (rounded as in the file), atomids)."""
@@ -97,12 +99,27 @@ def build_system(rng, species, sequence, box=(8.0, 8.0, 8.0), mode='rigid+jitter
         sp = species[key]
         pos = place_instance(rng, sp, box, mode, index=idx)
         vel = rng.normal(size=pos.shape) * 0.3 if with_vel else None
-        recs = species_records(sp, pos, resid, atomid, vel)
+        nres = len(sp['sizes'])
+        if resid_mode == 'gaps':
+            # residue numbers with gaps, and now and then a restart at a small number (as after the five-digit wrap
+            # or in files assembled from pieces); neighbouring residues always differ in number
+            numbers = []
+            for k in range(nres):
+                if numbers or records:
+                    resid = (resid + int(rng.integers(1, 5))) if rng.random() < 0.85 else int(rng.integers(1, 4)) + (resid % 2)
+                    if records and not numbers and resid == records[-1][0]:
+                        resid += 1
+                    if numbers and resid == numbers[-1]:
+                        resid += 1
+                numbers.append(resid)
+        else:
+            numbers = [resid + k for k in range(nres)]
+        recs = species_records(sp, pos, resid, atomid, vel, numbers=numbers)
         instances.append({'species': key, 'name': sp['name'], 'first_atom': len(records), 'n_atoms': len(recs),
-                          'resids': [(resid + k) % 100000 for k in range(len(sp['sizes']))],
+                          'resids': [x % 100000 for x in numbers],
                           'coords': np.array([r[4] for r in recs]), 'atomids': [r[3] for r in recs],
                           'vel': None if vel is None else np.array([r[5] for r in recs])})
         records += recs
-        resid += len(sp['sizes'])
+        resid = numbers[-1] + 1 if resid_mode != 'gaps' else numbers[-1]
         atomid += len(recs)
     return records, instances
